@@ -435,7 +435,7 @@ fn end_to_end(ctx: &Ctx, total: &mut Tally) -> Value {
             Some(t) => total.add("C15:e2e:exits-late", format!("{}: the daemon process exited only after {t} ms", sc.name), doc.clone()),
             None => total.add("C15:e2e:does-not-exit", format!("{}: the writer thread cannot start, yet the daemon process is still there after {} ms", sc.name, sc.observe_ms), doc.clone()),
         }
-        report.push(json!({"scenario": sc.name, "daemon_exited_after_ms": v["daemon_exited_after_ms"], "exit_status": v["daemon_exit_status"]}));
+        report.push(json!({"scenario": sc.name, "daemon_exited_after_ms": v["daemon_exited_after_ms"], "exit_status": v["daemon_exit_status"], "machine": v["machine"]}));
     }
     // a worker that dies in a daemon that has been healthy: of a lasting cause (the polling thread's `expect` on a
     // PHC error bound that is not a number) and of a passing one (a single undecodable reply), right after
@@ -473,7 +473,7 @@ fn end_to_end(ctx: &Ctx, total: &mut Tally) -> Value {
             Some(t) => total.add("C15:e2e:exits-late", format!("{name}: the daemon process exited only {t} ms after the event"), doc.clone()),
             None => total.add("C15:e2e:lingers-after-worker-death", format!("{name}: 15 s later the daemon process is still there ({} tracking requests were sent after the event)", v["tracking_requests_after_the_attribute_broke"]), doc.clone()),
         }
-        report.push(json!({"scenario": name, "daemon_exited_ms_after_the_event": v["daemon_exited_ms_after_the_attribute_broke"], "exit_status": v["daemon_exit_status"]}));
+        report.push(json!({"scenario": name, "daemon_exited_ms_after_the_event": v["daemon_exited_ms_after_the_attribute_broke"], "exit_status": v["daemon_exit_status"], "machine": v["machine"]}));
     }
     json!({"scenarios": report})
 }
